@@ -141,6 +141,7 @@ func checkC03(c *Check) {
 
 	// ---- R2
 	c.settleHandsOnPayments("R2", settle)
+	c.distributeAlways("R2")
 	c.Floor("R2", 4)
 	c.genesisIdentityRule("R7")
 	c.escrowExportComplete("R7")
